@@ -930,10 +930,12 @@ def check_nonfinite_spellings(ctx, rep):
         k = G.describe(b, t["args"][1])
         if k.kind != "conststr" or k.v != "val":
             continue
-        if not any(g.op == "False" and g.a is not None and "is_finite" in repr(g.a) for g in G.guards_at(b, bi)):
-            continue  # the finite spelling
-        # every definition that can reach the value operand
+        # the textual spelling: the `val` whose value is a string (the finite one is an f64)
         pl = op_place(t["args"][2])
+        vty = b.local_ty(pl["l"]) if pl is not None else ""
+        if "str" not in vty and "String" not in vty:
+            continue
+        # every definition that can reach the value operand
         todo, seen = [pl["l"]] if pl is not None else [], set()
         while todo:
             l = todo.pop()
@@ -951,6 +953,14 @@ def check_nonfinite_spellings(ctx, rep):
                         todo.append(op_place(rv["op"])["l"])
                 elif rv["k"] in ("ref", "rawptr"):
                     todo.append(rv["place"]["l"])
+                elif rv["k"] == "agg":
+                    # Some("NaN") handed over by a helper: the payloads
+                    for o in rv["ops"]:
+                        c = mir.op_const(o)
+                        if c is not None and "str" in c:
+                            written.add(c["str"])
+                        elif c is None and op_place(o) is not None:
+                            todo.append(op_place(o)["l"])
                 else:
                     dynamic.append(rv["k"])
     n += 1
